@@ -289,6 +289,8 @@ def run(facts, tier):
     from props import c06, c14
     c06.r06_3(facts, res, "R12-9")
     c14.c14_8(facts, res, "R12-10")
+    from props import c15
+    c15.r15_4(facts, res, "R12-11")    # at most one document element and one document type: the refusals of XmlDocument::insert_by_id
     r12_7(facts, res)
     import staleidx
     staleidx.rule(facts, res, "R12-5", lambda f: f["crate"] in ("xml_info", "xml_dom"), floor=7)
